@@ -152,6 +152,12 @@ func genAppsCase(c *Ctx) {
 			k.alloc = keys[i-1].alloc.Clone()
 		}
 		app.VerifSetSortKeys(time.Unix(k.submit, 0), k.prio, resources.NewResourceFromMap(map[string]resources.Quantity{"cpu": 1}), k.alloc)
+		if c.chance(0.3) {
+			// an allocation that arrives already bound to a node (RecoverAllocationAsk, see partition.UpdateAllocation) with a
+			// priority above the outstanding asks: it is not outstanding, the sort key stays k.prio
+			app.RecoverAllocationAsk(objects.NewAllocationFromSI(&si.Allocation{AllocationKey: id + "-rec", ApplicationID: id, Priority: k.prio + 1 + int32(c.pick(3)),
+				NodeID: "node-1", ResourcePerAlloc: &si.Resource{Resources: map[string]*si.Quantity{"cpu": {Value: 1}}}}))
+		}
 		apps[id] = app
 		keys = append(keys, k)
 	}
